@@ -5,7 +5,7 @@
    direction covers the encodings this writer never emits: Codec(Alt).enc_u writes every sequence
    and map in the unknown-length form. *)
 From Coq Require Import NArith ZArith List.
-From Desert Require Import Outcome IO Types Codec CodecB CodecWf MiscProofs CodecAlt C04Lemmas AltProofs
+From Desert Require Import Outcome IO Types BigDec Codec CodecB CodecWf MiscProofs CodecAlt C04Lemmas AltProofs
   CodecRt2 PropLemmas.
 Import ListNotations.
 Open Scope N_scope.
@@ -33,6 +33,67 @@ Proof. exact layout_bytes. Qed.
 Theorem C04_duration : forall s n st,
   enc 1 [] (TPrim PDuration) (VNode 0 [VN s; VN n]) st = Ok (be_bytes 8 s ++ be_bytes 4 n, st).
 Proof. exact layout_duration. Qed.
+(* ---- the documented layouts of the uuid, big-number and time types (features/*.rs) ---- *)
+Theorem C04_uuid : forall bs st, enc 1 [] (TPrim PUuid) (VB bs) st = Ok (bs, st).
+Proof. reflexivity. Qed.
+(* BigInt: the byte-array layout (unsigned length) of the minimal two's-complement big-endian form *)
+Theorem C04_bigint : forall z st, nlen (bigint_to_be z) < 2 ^ 32 ->
+  enc 1 [] (TPrim PBigInt) (VZ z) st = Ok (write_var_u32 (nlen (bigint_to_be z)) ++ bigint_to_be z, st).
+Proof.
+  intros z st H. cbn [enc enc_prim]. unfold enc_bytes.
+  destruct (nlen (bigint_to_be z) <? 2 ^ 32) eqn:E; [reflexivity|].
+  apply N.ltb_ge in E. exfalso. apply (N.lt_irrefl (2 ^ 32)). eapply N.le_lt_trans; eassumption.
+Qed.
+Example C04_bigint_bytes :
+  bigint_to_be 0 = [0] /\ bigint_to_be 127 = [127] /\ bigint_to_be 128 = [0; 128] /\
+  bigint_to_be (-128) = [128] /\ bigint_to_be (-129) = [255; 127] /\ bigint_to_be 65535 = [0; 255; 255].
+Proof. vm_compute. repeat split. Qed.
+(* BigDecimal: the String layout of its decimal text *)
+Theorem C04_bigdecimal : forall i sc st, nlen (bd_render i sc) < 2 ^ 31 ->
+  enc 1 [] (TPrim PBigDecimal) (VNode 0 [VZ i; VZ sc]) st =
+  Ok (write_var_i32 (Z.of_N (nlen (bd_render i sc))) ++ bd_render i sc, st).
+Proof. intros i sc st H. cbn [enc enc_prim]. apply (layout_string (bd_render i sc) st H). Qed.
+Theorem C04_weekday_month : forall n st,
+  enc 1 [] (TPrim PWeekday) (VN n) st = Ok ([n], st) /\ enc 1 [] (TPrim PMonth) (VN n) st = Ok ([n], st).
+Proof. split; reflexivity. Qed.
+Theorem C04_fixed_offset : forall z st, enc 1 [] (TPrim PFixedOffset) (VZ z) st = Ok (0 :: write_var_i32 z, st).
+Proof. reflexivity. Qed.
+Theorem C04_tz : forall nm st, nlen nm < 2 ^ 31 ->
+  enc 1 [] (TPrim PTz) (VB nm) st = Ok (1 :: write_var_i32 (Z.of_N (nlen nm)) ++ nm, st).
+Proof.
+  intros nm st H. cbn [enc enc_prim]. unfold enc_string.
+  destruct (nlen nm <? 2 ^ 31) eqn:E; [reflexivity|].
+  apply N.ltb_ge in E. exfalso. apply (N.lt_irrefl (2 ^ 31)). eapply N.le_lt_trans; eassumption.
+Qed.
+Theorem C04_datetime_utc : forall secs nanos st,
+  enc 1 [] (TPrim PDateTimeUtc) (VNode 0 [VZ secs; VN nanos]) st =
+  Ok (be_bytes 8 (to_unsigned 64 secs) ++ be_bytes 4 nanos, st).
+Proof. reflexivity. Qed.
+Theorem C04_naive_date : forall y m d st,
+  enc 1 [] (TPrim PNaiveDate) (VNode 0 [VZ y; VN m; VN d]) st = Ok (write_var_u32 (to_unsigned 32 y) ++ [m; d], st).
+Proof. reflexivity. Qed.
+Theorem C04_naive_time : forall h mi sec ns st,
+  enc 1 [] (TPrim PNaiveTime) (VNode 0 [VN h; VN mi; VN sec; VN ns]) st = Ok ([h; mi; sec] ++ write_var_u32 ns, st).
+Proof. reflexivity. Qed.
+Theorem C04_naive_date_time : forall y m d h mi sec ns st,
+  enc 1 [] (TPrim PNaiveDateTime) (VNode 0 [VNode 0 [VZ y; VN m; VN d]; VNode 0 [VN h; VN mi; VN sec; VN ns]]) st =
+  Ok ((write_var_u32 (to_unsigned 32 y) ++ [m; d]) ++ [h; mi; sec] ++ write_var_u32 ns, st).
+Proof. reflexivity. Qed.
+(* DateTime<FixedOffset>: the LOCAL date and time, then the offset; DateTime<Tz>: the UTC date and time, then the zone *)
+Theorem C04_datetime_fixed : forall dt b off st, enc_ndt dt = Some b ->
+  enc 1 [] (TPrim PDateTimeFixed) (VNode 0 [dt; VZ off]) st = Ok (b ++ 0 :: write_var_i32 off, st).
+Proof. intros dt b off st H. cbn [enc enc_prim]. rewrite H. reflexivity. Qed.
+(* a map is the sequence of its (key, value) 2-tuples *)
+Theorem C04_map : forall f E k kt vt vs st,
+  enc (S f) E (TMap k kt vt) (VNode 0 vs) st = enc (S f) E (TSeq KVec (TTuple [kt; vt])) (VNode 0 vs) st.
+Proof. reflexivity. Qed.
+(* Box, Rc, Arc, & are transparent; PhantomData and () write nothing *)
+Theorem C04_wrappers : forall f E w t v st, enc (S f) E (TWrap w t) v st = enc f E t v st.
+Proof. reflexivity. Qed.
+Theorem C04_empty : forall f E st,
+  enc (S f) E TPhantom (VNode 0 []) st = Ok ([], st) /\ enc (S f) E (TPrim PUnit) (VNode 0 []) st = Ok ([], st).
+Proof. split; reflexivity. Qed.
+
 Theorem C04_option_none : forall f E t st, enc (S f) E (TOption t) VNone st = Ok ([0], st).
 Proof. exact layout_none. Qed.
 Theorem C04_option_some : forall f E t x st,
@@ -107,6 +168,21 @@ Example C04_example_point_vector :
     Ok ([2; 8; 8; 3; 2; 122; 255; 255; 255; 246; 0; 0; 0; 1], [[122]]).
 Proof. vm_compute. reflexivity. Qed.
 
+Print Assumptions C04_uuid.
+Print Assumptions C04_weekday_month.
+Print Assumptions C04_fixed_offset.
+Print Assumptions C04_datetime_utc.
+Print Assumptions C04_naive_date.
+Print Assumptions C04_naive_time.
+Print Assumptions C04_naive_date_time.
+Print Assumptions C04_wrappers.
+Print Assumptions C04_empty.
+Print Assumptions C04_bigint_bytes.
+Print Assumptions C04_bigint.
+Print Assumptions C04_bigdecimal.
+Print Assumptions C04_tz.
+Print Assumptions C04_datetime_fixed.
+Print Assumptions C04_map.
 Print Assumptions C04_u32_be.
 Print Assumptions C04_be_is_big_endian.
 Print Assumptions C04_i64.
